@@ -33,6 +33,18 @@ def jobs(tier):
     for (n, k) in [(3, 2), (3, 3), (2, 3)]:
         for o in ('diff', 'min', 'klargest:2'):
             J.append(job('C01', 'ilp', n, k, obj=o, checks=ck))
+    # tier C: 6-8 items taking two or three distinct symbolic values (ties everywhere), and 4-5 bins
+    for alg in HEUR + EXACT + ('dp', 'cg'):
+        kw = {'obj': 'diff'} if alg in ('dp', 'cg') else {}
+        if alg == 'cg': kw['cg_mask'] = 11
+        for (n, k, g) in ((6, 3, [2, 2, 2]), (7, 4, [4, 3]), (7, 4, [3, 4]), (8, 5, [5, 3])):
+            if alg == 'dp' and n > 6: continue
+            if alg == 'ckk' and k > 3: continue        # CKK enumerates k! pairings per node: a single 7-item path takes seconds from 4 bins on
+            J.append(job('C01', alg, n, k, order='asc', groups=g, checks=ck, **kw))
+    for alg in EXACT:
+        if alg != 'ckk': J.append(job('C01', alg, 7, 4, order='asc', groups=[3, 2, 2], checks=ck))
+        J.append(job('C01', alg, 4, 4, order='desc', checks=ck))
+        J.append(job('C01', alg, 4, 5, order='desc', checks=ck))
     if tier == 'thorough':
         for (n, k) in [(5, 2), (5, 3), (5, 4)]:
             for alg in HEUR + EXACT:
